@@ -399,7 +399,7 @@ def run(ctx, cases_override=None, repeat=1, confirm_pass=False):
         "server_requests": sum(1 for r in trace if r["ev"] == "S" and r["h"] == "start"),
         "behaviours_generated": len(behaviours), "behaviours_replayed": len(ends) - len(unreplayable), "unreplayable": len(unreplayable),
         "hook_h3": h3, "model_lead_cases": len(lead_cases),
-        "race_reports": len(race_reps), "untraced_cases": len(cases) - len(traced_cases), "transient_unreproduced": transient,
+        "race_reports": len(race_reps), "untraced_cases": len(cases) - len({i for i in traced_cases if i <= 100000}), "transient_unreproduced": transient,
     }
     return vlib.conclude(ctx, viols, "model_checking", cov, [
         "TLC model-checks NoTwin, Bounded, Once, Agree (+ termination under weak fairness) of the impl-shaped client for small constants, "
